@@ -7,7 +7,9 @@ absolute_position returns an aggregate in which every positional field (Point, C
 nested fragment) is the same field translated by the cell and every other field does not depend on
 the cell; Fragment/FragmentSpan/Contacts dispatch every variant; Cell::absolute_position /
 localize_point / localize_cell are +/- the cell's top-left (constant-folded on samples of the
-formula); Span::localize subtracts the span's own top-left from every cell.  Not decided: float
+formula); Span::localize subtracts the span's own top-left from every cell; P4 no float comparison
+against a non-zero constant on the conversion path outside a reviewed table (an absolute tolerance
+makes touching/merging depend on the distance from the origin).  Not decided: float
 behaviour of the geometric predicates (is_collinear threshold, Arc::center sqrt) at large offsets."""
 import re
 from fractions import Fraction
@@ -276,7 +278,61 @@ def run(run):
             run.bad("C06.P1", "cell-fragment-offset", where(prog.bodies[afs]), "abs_fragment_spans does not translate each cell's fragments by that cell (closure=%s, key=%s)" % (ok, key_ok))
     else:
         run.missing("C06.P1", "FragmentBuffer::abs_fragment_spans")
+    p4(run)
     run.assume("float effects of is_collinear / contains_point / Arc::center at large coordinates are not decided")
+
+
+# float thresholds on the conversion path that were read and accepted: (function, operator, constant) -> reason
+REVIEWED_THRESHOLDS = {
+    ("util::is_collinear", "Lt", 0.01): "Heron area of the triangle below 0.01: distances are translation invariant in exact arithmetic; the float residue is the declared undecided part (long diagonals)",
+    ("CircleArt::is_shared_x", "Eq", 1.0): "table initialiser on exact halves (input independent)",
+    ("CircleArt::is_shared_y", "Eq", 1.0): "table initialiser on exact halves (input independent)",
+}
+
+
+def p4(run):
+    """P4 [S]: no new absolute float threshold.  A comparison of a computed float against a non-zero constant on
+    the conversion path is a position-dependent decision unless the compared quantity is translation invariant;
+    an absolute machine-epsilon tolerance in particular makes touching/merging depend on the distance from the
+    origin.  Census rule: every such comparison must be in the reviewed table."""
+    from ..common import lib_reachable
+    from ..mirlib import op_const
+    prog = run.prog
+    roots, reach = lib_reachable(run, "C06.P4")
+    n = 0
+    for p in sorted(reach):
+        b = prog.bodies[p]
+        for blk in b["blocks"]:
+            if blk["cleanup"]:
+                continue
+            for st in blk["stmts"]:
+                rv = st.get("rv") or {}
+                if rv.get("k") != "bin" or rv["op"] not in ("Lt", "Le", "Gt", "Ge", "Eq", "Ne"):
+                    continue
+                for o in rv["ops"]:
+                    c = op_const(o)
+                    if not c or "float" not in c:
+                        continue
+                    v = float(c["float"])
+                    if v == 0.0:
+                        continue   # sign tests are scale free
+                    n += 1
+                    key = (short(p), rv["op"], round(v, 6))
+                    if key in REVIEWED_THRESHOLDS:
+                        run.ok("C06.P4", "reviewed float threshold %s %s %g" % key, where(st), REVIEWED_THRESHOLDS[key], nontrivial=False)
+                    else:
+                        tiny = abs(v) <= 1e-5
+                        run.bad("C06.P4", "float-threshold/%s/%s" % (short(p), rv["op"]), where(st),
+                                "%s compares a computed float with the constant %g%s: an absolute tolerance makes the outcome depend on the magnitude of the coordinates, "
+                                "i.e. on where the drawing sits on the page (not in the reviewed table)" % (short(p), v, " (machine-epsilon sized)" if tiny else ""))
+    run.ok("C06.P4", "float-threshold census: %d comparisons against non-zero constants on the conversion path, all reviewed" % n, None)
+
+
+FIXTURE_EXPECT = ["float-threshold/"]
+
+
+def fixture(run):
+    p4(run)
 
 
 run_flow = run
